@@ -3,6 +3,9 @@ package harness
 import (
 	"context"
 	"fmt"
+	"reflect"
+	"runtime"
+	"strings"
 	"sync"
 	"sync/atomic"
 	"testing"
@@ -842,6 +845,215 @@ func raceS1(t *testing.T) (res raceResult) {
 // only signatures starting with one of `only` are reported (empty = all)
 var raceOnly []string
 
+// Q4: a caller queues while a completion is in progress (the completion has started, the delegate's unit is not yet back).  When the
+// unit comes back the completion's hand-off must look at the backlog as it is then: the caller that queued meanwhile is served by it.
+func raceQ4(t *testing.T) (res raceResult) {
+	res.Sig = "queue:lost-handoff:waiter-queued-during-completion"
+	synctest.Test(t, func(t *testing.T) {
+		for _, oc := range []int{0, 1, 2} {
+			g, st := newGated(1)
+			q := limiter.NewQueueBlockingLimiterFromConfig(g, limiter.QueueLimiterConfig{Ordering: limiter.OrderingFIFO, MaxBacklogSize: 5, MaxBacklogTimeout: time.Hour})
+			holder, _ := q.Acquire(context.Background())
+			g.armRelease()
+			go func() {
+				switch oc {
+				case 0:
+					holder.OnSuccess()
+				case 1:
+					holder.OnIgnore()
+				default:
+					holder.OnDropped()
+				}
+			}()
+			c := <-g.parked // the completion is under way; the unit is still held
+			type ans struct {
+				l  core.Listener
+				ok bool
+			}
+			d := make(chan ans, 1)
+			go func() { l, ok := q.Acquire(context.Background()); d <- ans{l, ok} }()
+			synctest.Wait() // refused by the delegate, queued, asleep
+			close(c)        // the unit comes back, the hand-off runs
+			synctest.Wait()
+			select {
+			case a := <-d:
+				if a.ok {
+					a.l.OnIgnore()
+				}
+			default:
+				if !res.Failed {
+					res.Failed = true
+					res.Detail = fmt.Sprintf("completion outcome %d: the caller that queued while the completion was in progress is still asleep after it finished (%d backlog entries, %d/1 tokens held, no timeout pending for an hour)", oc, q.VerifBacklogLen(), st.GetBusyCount())
+				}
+				time.Sleep(2 * time.Hour)
+			}
+			synctest.Wait()
+		}
+	})
+	return
+}
+
+// B3 (real time): a waiter that gave up (cancelled) leaves its helper goroutine behind; the next release wakes that helper, which
+// must simply finish.  Later waiters are then woken as usual.  The oracle is deliberately weaker than the property (five further
+// releases, five seconds) so that scheduling noise cannot trip it.
+func raceB3(t *testing.T) (res raceResult) {
+	res.Sig = "blocking:waiters-stuck-after-abandoned-waiter"
+	for _, mk := range []func(core.Limiter) core.Limiter{
+		func(d core.Limiter) core.Limiter { return limiter.NewBlockingLimiter(d, 0, nil) },
+		func(d core.Limiter) core.Limiter {
+			return limiter.NewDeadlineLimiter(d, time.Now().Add(time.Hour), nil)
+		},
+	} {
+		g, st := newGated(1)
+		bl := mk(g)
+		holder, ok := bl.Acquire(context.Background())
+		if !ok {
+			res.Failed, res.Detail = true, "first acquisition refused"
+			return
+		}
+		ctxA, cancelA := context.WithCancel(context.Background())
+		doneA := make(chan bool, 1)
+		go func() { _, ok := bl.Acquire(ctxA); doneA <- ok }()
+		time.Sleep(30 * time.Millisecond)
+		cancelA()
+		select {
+		case <-doneA:
+		case <-time.After(5 * time.Second):
+			res.Failed, res.Detail = true, "a cancelled waiter did not return within 5s"
+			return
+		}
+		holder.OnSuccess() // wakes the abandoned helper
+		time.Sleep(30 * time.Millisecond)
+		h2, ok := bl.Acquire(context.Background())
+		if !ok {
+			res.Failed, res.Detail = true, "acquisition with capacity free refused"
+			return
+		}
+		type ans struct {
+			l  core.Listener
+			ok bool
+		}
+		doneB := make(chan ans, 1)
+		go func() { l, ok := bl.Acquire(context.Background()); doneB <- ans{l, ok} }()
+		time.Sleep(100 * time.Millisecond)
+		h2.OnSuccess()
+		served := false
+		for round := 0; round < 6 && !served; round++ {
+			select {
+			case a := <-doneB:
+				served = true
+				if a.ok {
+					a.l.OnIgnore()
+				}
+			case <-time.After(time.Second):
+				// one more release (capacity is free, so this acquisition is granted at once)
+				nctx, ncancel := context.WithTimeout(context.Background(), 500*time.Millisecond)
+				done := make(chan struct{})
+				go func() {
+					defer close(done)
+					if l, ok := bl.Acquire(nctx); ok {
+						l.OnIgnore()
+					}
+				}()
+				select {
+				case <-done:
+				case <-time.After(time.Second):
+				}
+				ncancel()
+			}
+		}
+		if !served {
+			res.Failed = true
+			res.Detail = fmt.Sprintf("after one waiter was cancelled and its slot released, a later waiter was never woken: still asleep after the release it waited for and 5 more (%d/1 tokens held)", st.GetBusyCount())
+			return
+		}
+	}
+	return
+}
+
+// Q5: the hand-off has picked a waiter and is inside the delegate when that waiter's backlog timeout fires: the waiter removes its own
+// entry, the hand-off then removes it again (a no-op), finds nobody to hand the token to and gives it back.  Afterwards the backlog is
+// empty and every count of it says so: the limiter's own, the queue_size gauge, and the admission of the next callers (the token is
+// free for the first, the second is queued - not refused - and served by the next completion).
+func raceQ5(t *testing.T) (res raceResult) {
+	res.Sig = "queue:backlog-not-exact:after-double-evict"
+	synctest.Test(t, func(t *testing.T) {
+		for _, fifo := range []bool{true, false} {
+			g, st := newGated(1)
+			reg := newRecRegistry()
+			ord := limiter.OrderingLIFO
+			if fifo {
+				ord = limiter.OrderingFIFO
+			}
+			q := limiter.NewQueueBlockingLimiterFromConfig(g, limiter.QueueLimiterConfig{Ordering: ord, MaxBacklogSize: 4, MaxBacklogTimeout: time.Second, MetricRegistry: reg})
+			holder, _ := q.Acquire(context.Background())
+			d1 := make(chan bool, 1)
+			go func() { _, ok := q.Acquire(context.Background()); d1 <- ok }()
+			synctest.Wait()
+			time.Sleep(500 * time.Millisecond)
+			g.arm(false, true)
+			go holder.OnSuccess()
+			c := <-g.parked // the hand-off has peeked the waiter and holds the delegate's token
+			g.arm(false, false)
+			time.Sleep(600 * time.Millisecond) // the waiter's timeout fires: it leaves the backlog and returns
+			synctest.Wait()
+			close(c)
+			synctest.Wait()
+			select {
+			case ok := <-d1:
+				if ok {
+					res.Failed, res.Detail = true, "a waiter whose timeout had fired was granted"
+				}
+			default:
+				res.Failed, res.Detail = true, "the waiter did not return at its backlog timeout"
+			}
+			add := func(sig, d string) { extraRace = append(extraRace, raceResult{sig, d, true}) }
+			if n := q.VerifBacklogLen(); n != 0 && !res.Failed {
+				res.Failed, res.Detail = true, fmt.Sprintf("the backlog is empty (its only waiter timed out during the hand-off) but reports %d entries", n)
+			}
+			for k, sup := range reg.Gauges {
+				if strings.HasPrefix(k, "queue_size") {
+					if v, _ := sup(); v != 0 {
+						add("queue:queue-size-gauge:after-double-evict", fmt.Sprintf("gauge %s reports %v with nobody in the backlog (its only waiter timed out during the hand-off)", k, v))
+					}
+				}
+			}
+			if b := st.GetBusyCount(); b != 0 {
+				add("queue:token-leak:handoff-to-departed-waiter", fmt.Sprintf("%d tokens held at the delegate, nobody holds one", b))
+			}
+			h2, ok2 := q.Acquire(context.Background())
+			if !ok2 {
+				add("queue:refused-with-room:after-double-evict", "the token is free and the backlog empty, but the next caller was refused")
+				continue
+			}
+			d3 := make(chan core.Listener, 1)
+			t0 := time.Now()
+			go func() { l, _ := q.Acquire(context.Background()); d3 <- l }()
+			synctest.Wait()
+			select {
+			case l := <-d3:
+				if l == nil && time.Since(t0) == 0 {
+					add("queue:refused-with-backlog-room:after-double-evict", "limit reached, backlog empty (bound 4): the next caller was refused at once instead of being queued")
+				}
+			default:
+				h2.OnSuccess()
+				synctest.Wait()
+				select {
+				case l := <-d3:
+					if l != nil {
+						l.OnIgnore()
+					}
+				default:
+					add("queue:lost-handoff:after-double-evict", "the caller queued after the race was not served by the next completion")
+				}
+			}
+			time.Sleep(5 * time.Second)
+			synctest.Wait()
+		}
+	})
+	return
+}
+
 func runRaces(t *testing.T, rep *Report, races ...func(*testing.T) raceResult) {
 	keep := func(sig string) bool {
 		if len(raceOnly) == 0 {
@@ -857,7 +1069,19 @@ func runRaces(t *testing.T, rep *Report, races ...func(*testing.T) raceResult) {
 	defer func() { raceOnly = nil }()
 	for _, f := range races {
 		extraRace = nil
-		r := f(t)
+		r := func() (r raceResult) {
+			defer func() {
+				// synctest reports goroutines that stay blocked for ever when the replay is over by panicking in the caller
+				if p := recover(); p != nil {
+					name := runtime.FuncForPC(reflect.ValueOf(f).Pointer()).Name()
+					if i := strings.LastIndex(name, "."); i >= 0 {
+						name = name[i+1:]
+					}
+					r = raceResult{Sig: name + ":goroutines-blocked-for-ever", Failed: true, Detail: fmt.Sprintf("replay %s: %v (a goroutine started by the limiter never finished; if it holds the condition's mutex no later waiter can be signalled)", name, p)}
+				}
+			}()
+			return f(t)
+		}()
 		for _, r := range append([]raceResult{r}, extraRace...) {
 			rep.Evaluations++
 			rep.Distinct("race-replay", r.Sig)
@@ -872,12 +1096,20 @@ func runRaces(t *testing.T, rep *Report, races ...func(*testing.T) raceResult) {
 func TestC10Races(t *testing.T) {
 	rep := NewReport("C10races")
 	defer rep.Write(t)
-	runRaces(t, rep, raceF8, raceF8deadline, raceF8poll, raceB2, raceF9a, raceF9b, raceF9c, raceQ2, raceP1)
+	runRaces(t, rep, raceF8, raceF8deadline, raceF8poll, raceB2, raceF9a, raceF9b, raceF9c, raceQ2, raceP1, raceQ4, raceB3)
 }
 func TestC12Races(t *testing.T) {
 	rep := NewReport("C12races")
 	defer rep.Write(t)
-	runRaces(t, rep, raceF9b, raceF11, raceF9c)
+	runRaces(t, rep, raceF9b, raceF11, raceF9c, raceQ5)
+}
+
+// the queue_size gauge after a give-up that overlaps a hand-off
+func TestC20Races(t *testing.T) {
+	rep := NewReport("C20races")
+	defer rep.Write(t)
+	raceOnly = []string{"queue:queue-size-gauge"}
+	runRaces(t, rep, raceQ5)
 }
 func TestC19Races(t *testing.T) {
 	rep := NewReport("C19races")
@@ -889,6 +1121,12 @@ func TestC19Races(t *testing.T) {
 	// a waiter must not be dropped from the backlog by a hand-off that found no capacity
 	raceOnly = []string{"queue:order"}
 	runRaces(t, rep, raceQ3)
+	// after a waiter timed out during a hand-off the pool still queues and serves the next callers
+	raceOnly = []string{"queue:refused-with", "queue:lost-handoff:after-double-evict", "queue:token-leak", "queue:backlog-not-exact:after-double-evict"}
+	runRaces(t, rep, raceQ5)
+	// a pool with a poll period recovers a wake-up lost in the window at its next poll
+	raceOnly = []string{"blocking:lost-wakeup:not-recovered-at-poll"}
+	runRaces(t, rep, raceF8poll)
 }
 
 func TestC03Races(t *testing.T) {
@@ -900,8 +1138,8 @@ func TestC03Races(t *testing.T) {
 func TestC11Races(t *testing.T) {
 	rep := NewReport("C11races")
 	defer rep.Write(t)
-	raceOnly = []string{"queue:order"}
-	runRaces(t, rep, raceQ1, raceQ3)
+	raceOnly = []string{"queue:order", "queue:lost-handoff:overlapping-completions"}
+	runRaces(t, rep, raceQ1, raceQ3, raceQ2)
 }
 
 func TestC02Races(t *testing.T) {
